@@ -356,9 +356,12 @@ def _space_to_depth_batch_rule(
         return out, batching.not_mapped
 
     moved = batching.bdim_at_front(inputs, bdim, inputs.shape[bdim])
-    out = jax.vmap(
-        lambda x: DmPixSpaceToDepthPlugin._PRIM.bind(x, block_size=block_size)
-    )(moved)
+    if moved.ndim == 4:
+        # (batch, H, W, C) is a layout the primitive handles itself.
+        return DmPixSpaceToDepthPlugin._PRIM.bind(moved, block_size=block_size), 0
+    # Binding the primitive under jax.vmap would re-enter this rule; evaluate
+    # the plain implementation per example instead.
+    out = jax.vmap(lambda x: _space_to_depth_impl(x, block_size=block_size))(moved)
     return out, 0
 
 
